@@ -32,7 +32,7 @@ NEG = ["zero", "minus-one", "minus-current", "nan"]
 PARAM_SETTERS = {"a", "b", "c"}
 CURVED = [
     ("Circle", [1.0], 1), ("Circle", [7.5], 2), ("Ellipse", [2.0, 0.3], 1), ("Ellipse", [1.0, 1.0 + 1e-6], 3),
-    ("Sphere", [0.3], 2), ("Sphere", [2.0], 0), ("Ellipsoid", [1.0, 2.0, 7.5], 1), ("Ellipsoid", [2.0, 2.0, 0.3], 3),
+    ("Sphere", [0.3], 2), ("Sphere", [2.0], 0), ("Ellipsoid", [2.0, 7.5, 1.0], 1), ("Ellipsoid", [2.0, 2.0, 0.3], 3),
 ]
 
 
